@@ -119,6 +119,62 @@ def run(ctx):
             if nontrivial:
                 ctx.sample({**inp, "partitions": got}, limit=4)
     ctx.traces = len(cs) * 2
+    pipeline_cases(ctx)
+
+
+def pipeline_cases(ctx):
+    """the partitions as the encode commands really use them: what encode_init records must tile exactly the records of the
+    store being encoded — also when the schema file was prepared on another (smaller or larger) store with the same header"""
+    import io
+    import json
+    import pathlib
+    import shutil
+    import convlib
+    import vcfgen
+    from bio2zarr import vcf2zarr
+    rng = ctx.rng
+    work = common.scratch_dir("c11-")
+    try:
+        for k in range(6 if ctx.thorough else 2):
+            spec = vcfgen.simple_file(rng, nrec=rng.choice([17, 23, 40]), ncontig=rng.choice([1, 2]), samples=2, unused_contigs=False)
+            n = len(spec["records"])
+            sub = dict(spec, records=spec["records"][: rng.randrange(3, n - 2)])
+            full = vcfgen.materialise(spec, pathlib.Path(work) / f"full{k}", "vcf.gz+tbi")
+            part = vcfgen.materialise(sub, pathlib.Path(work) / f"part{k}", "vcf.gz+tbi")
+            icf_full, icf_part = pathlib.Path(work) / f"full{k}.icf", pathlib.Path(work) / f"part{k}.icf"
+            convlib.explode(icf_full, [full])
+            convlib.explode(icf_part, [part])
+            c = rng.choice([2, 3, 4, 7])
+            for which, src in (("own schema", icf_full), ("schema prepared on a subset", icf_part), ("schema prepared on a superset", icf_full)):
+                target = icf_part if which.endswith("superset") else icf_full
+                n_t = len(sub["records"]) if target is icf_part else n
+                buf = io.StringIO()
+                vcf2zarr.mkschema(src, buf, variants_chunk_size=c)
+                sp = pathlib.Path(work) / f"schema{k}.json"
+                sp.write_text(buf.getvalue())
+                out = pathlib.Path(work) / f"out{k}.zarr"
+                shutil.rmtree(out, ignore_errors=True)
+                p = rng.choice([1, 2, 3, 5])
+                cap = rng.choice([None, None, 2])
+                inp = {"vcf_spec": spec, "records_in_store": n_t, "schema": which, "variants_chunk_size": c, "partitions": p, "max_variant_chunks": cap}
+                ctx.case(("pipeline", k, which, c, p, cap), True)
+                ctx.count("pipeline_" + which.replace(" ", "_"))
+                try:
+                    vcf2zarr.encode_init(target, out, schema_path=sp, target_num_partitions=p, max_variant_chunks=cap)
+                    meta = json.loads((out / "wip" / "metadata.json").read_text())
+                    ps = [[q["start"], q["stop"]] for q in meta["partitions"]]
+                except Exception as e:  # noqa: BLE001
+                    ctx.violate(f"encode_init with {which} failed: {type(e).__name__}: {str(e)[:150]}", inp, "partitions", repr(e)[:150])
+                    continue
+                why = statement_fails(n_t, c, p, cap, ps)
+                if why:
+                    ctx.violate(f"encode_init ({which}: {n_t} records, chunk={c}, parts={p}, cap={cap}) recorded partitions {ps}: {why}", inp,
+                                "exact tiling", ps)
+                shutil.rmtree(out, ignore_errors=True)
+            shutil.rmtree(icf_full, ignore_errors=True)
+            shutil.rmtree(icf_part, ignore_errors=True)
+    finally:
+        shutil.rmtree(work, ignore_errors=True)
 
 
 def replay(ctx, payload):
